@@ -48,7 +48,7 @@ function canon(v, depth) {
     for (let i = 0; i < v.length; i++) a.push((i in v) ? canon(v[i], depth + 1) : {"$": "hole"});
     return {"$a": a};
   }
-  if (v instanceof Date) return {"$d": isNaN(v.getTime()) ? "invalid" : v.toISOString()};
+  if (Object.prototype.toString.call(v) === '[object Date]') return {"$d": isNaN(v.getTime()) ? "invalid" : v.toISOString()};
   const o = {"$o": Object.keys(v).map(k => [units(k), canon(v[k], depth + 1)])};
   const proto = Object.getPrototypeOf(v);
   if (proto !== Object.prototype) o["$proto"] = proto === null ? "null" : "other";
